@@ -210,6 +210,13 @@ fn ltk_case(out: &mut Out, seed: &[u8]) {
                 let rig = Rig::new(cfg, 0);
                 pubs.push(rig.server.get_public_key().to_string());
             }
+            // the model takes the online seeds as parameters drawn afresh from the OS for every OnlineKey::new():
+            // delegated keys of distinct key objects / Server instances must differ
+            let pubk_of = |c: &Vec<u8>| -> Vec<u8> {
+                RtMessage::from_bytes(c).ok().and_then(|m| m.get_field(Tag::DELE).map(|d| d.to_vec()))
+                    .and_then(|d| RtMessage::from_bytes(&d).ok()).and_then(|m| m.get_field(Tag::PUBK).map(|p| p.to_vec())).unwrap_or_default()
+            };
+            let onl_distinct = pubk_of(&c13) != pubk_of(&c0) && !pubk_of(&c13).is_empty();
             // C20: whatever Display / Debug of the key-holding objects print (an embedding program or a log
             // statement may format them) must not contain the seed or the scalar; the signer is formatted with
             // an empty and with a pending buffer
@@ -219,8 +226,8 @@ fn ltk_case(out: &mut Out, seed: &[u8]) {
             formatted.push_str(&format!("{} {:?} {} {} {}", signer, signer, ltk, onl13, onl0));
             let degenerate = seed_v.iter().all(|b| *b == seed_v[0]);
             let fmtleak = if degenerate { None } else { crate::wire::leak_scan(&crate::wire::secret_patterns(&seed_v), formatted.as_bytes()) };
-            format!("pk={} srv={} cert13={} cert0={} cert13b={} pubs={} display={} fmtleak={}", hex(&pk), hex(&srv), hex(&c13), hex(&c0), hex(&c13b), pubs.join(","), format!("{}", ltk),
-                fmtleak.map(|x| x.replace(' ', "_")).unwrap_or_else(|| "none".to_string()))
+            format!("pk={} srv={} cert13={} cert0={} cert13b={} pubs={} display={} fmtleak={} onl_distinct={}", hex(&pk), hex(&srv), hex(&c13), hex(&c0), hex(&c13b), pubs.join(","), format!("{}", ltk),
+                fmtleak.map(|x| x.replace(' ', "_")).unwrap_or_else(|| "none".to_string()), onl_distinct as u8)
         });
         r.unwrap_or_else(|| "panic".to_string())
     });
